@@ -12,7 +12,7 @@ import (
 	"github.com/google/martian/v3/zzverif/vf"
 )
 
-func isTchar(c byte) bool {
+func zzisTchar(c byte) bool {
 	switch {
 	case c >= 'a' && c <= 'z', c >= 'A' && c <= 'Z', c >= '0' && c <= '9':
 		return true
@@ -20,7 +20,7 @@ func isTchar(c byte) bool {
 	return strings.IndexByte("!#$%&'*+-.^_`|~", c) >= 0
 }
 
-func lower(c byte) byte {
+func zzlower(c byte) byte {
 	if c >= 'A' && c <= 'Z' {
 		return c + 32
 	}
@@ -29,7 +29,7 @@ func lower(c byte) byte {
 
 // names reports whether Connection-list element tok names header h
 // (case-insensitive, optional whitespace trimmed; only valid tokens name headers).
-func names(tok, h string) bool {
+func zznames(tok, h string) bool {
 	for len(tok) > 0 && (tok[0] == ' ' || tok[0] == '\t') {
 		tok = tok[1:]
 	}
@@ -40,22 +40,22 @@ func names(tok, h string) bool {
 		return false
 	}
 	for i := 0; i < len(tok); i++ {
-		if !isTchar(tok[i]) || lower(tok[i]) != lower(h[i]) {
+		if !zzisTchar(tok[i]) || zzlower(tok[i]) != zzlower(h[i]) {
 			return false
 		}
 	}
 	return true
 }
 
-var fixedHopByHop = []string{"Connection", "Keep-Alive", "Proxy-Authenticate", "Proxy-Authorization", "Proxy-Connection", "Te", "Trailer", "Transfer-Encoding", "Upgrade"}
+var zzfixedHopByHop = []string{"Connection", "Keep-Alive", "Proxy-Authenticate", "Proxy-Authorization", "Proxy-Connection", "Te", "Trailer", "Transfer-Encoding", "Upgrade"}
 
-func printable(s string) {
+func zzprintable(s string) {
 	for i := 0; i < len(s); i++ {
 		vf.Assume(s[i] < 0x7f && (s[i] >= 0x20 || s[i] == '\t') && s[i] != ',')
 	}
 }
 
-func newReq() (*http.Request, func()) {
+func zznewReq() (*http.Request, func()) {
 	req := &http.Request{Method: "GET", URL: &url.URL{Scheme: "http", Host: "example.com", Path: "/p"}, Host: "example.com",
 		Header: http.Header{}, Proto: "HTTP/1.1", ProtoMajor: 1, ProtoMinor: 1, RemoteAddr: "10.0.0.1:5000"}
 	_, remove, err := martian.TestContext(req, nil, nil)
@@ -66,7 +66,7 @@ func newReq() (*http.Request, func()) {
 // connectionLists builds 1..2 Connection header lines of 1..2 list elements
 // each; every element is a symbolic string of 2..4 bytes (so surrounding
 // whitespace, letter case and invalid token characters are all covered).
-func connectionLists() ([]string, []string) {
+func zzconnectionLists() ([]string, []string) {
 	var lines, toks []string
 	// Layouts of list elements over header lines. "s" is a fully symbolic
 	// element, "c" a concrete one (" x-y" with leading whitespace, lower case).
@@ -88,7 +88,7 @@ func connectionLists() ([]string, []string) {
 			var t string
 			if layout[i] == 's' {
 				t = vf.String("tok", 2+vf.Choice("toklen", vf.Param("toklens")))
-				printable(t)
+				zzprintable(t)
 			} else {
 				t = " x-y"
 			}
@@ -105,26 +105,26 @@ func connectionLists() ([]string, []string) {
 }
 
 // candidate end-to-end / hop-by-hop headers present on the message
-var candidates = []string{"Ab", "X-Y", "Keep-Alive", "Te", "Accept"}
+var zzcandidates = []string{"Ab", "X-Y", "Keep-Alive", "Te", "Accept"}
 
-func expectGone(h string, toks []string) bool {
-	for _, f := range fixedHopByHop {
+func zzexpectGone(h string, toks []string) bool {
+	for _, f := range zzfixedHopByHop {
 		if f == h {
 			return true
 		}
 	}
 	for _, t := range toks {
-		if names(t, h) {
+		if zznames(t, h) {
 			return true
 		}
 	}
 	return false
 }
 
-func checkSurvivors(got http.Header, toks []string, before map[string][]string, tag string) {
-	for _, h := range candidates {
+func zzcheckSurvivors(got http.Header, toks []string, before map[string][]string, tag string) {
+	for _, h := range zzcandidates {
 		vals, present := got[h]
-		if expectGone(h, toks) {
+		if zzexpectGone(h, toks) {
 			vf.Assert(!present, tag+":hop-by-hop-header-removed")
 		} else {
 			vf.Assert(present, tag+":end-to-end-header-kept")
@@ -145,13 +145,13 @@ func checkSurvivors(got http.Header, toks []string, before map[string][]string, 
 // VerifC14HopByHop: request and response through the standard stack.
 func VerifC14HopByHop() {
 	outer, _ := NewStack("martian")
-	lines, toks := connectionLists()
+	lines, toks := zzconnectionLists()
 	before := map[string][]string{}
-	for _, h := range candidates {
+	for _, h := range zzcandidates {
 		before[h] = []string{"v-" + h, "w"}
 	}
 	isReq := vf.Choice("message", 2) == 0
-	req, remove := newReq()
+	req, remove := zznewReq()
 	defer remove()
 	if isReq {
 		req.Header["Connection"] = lines
@@ -160,7 +160,7 @@ func VerifC14HopByHop() {
 		}
 		err := outer.ModifyRequest(req)
 		vf.Assert(err == nil, "request:stack-no-error")
-		checkSurvivors(req.Header, toks, before, "request")
+		zzcheckSurvivors(req.Header, toks, before, "request")
 		vf.Reach("request")
 	} else {
 		vf.Assert(outer.ModifyRequest(req) == nil, "response:request-phase")
@@ -171,13 +171,13 @@ func VerifC14HopByHop() {
 		}
 		err := outer.ModifyResponse(res)
 		vf.Assert(err == nil, "response:stack-no-error")
-		checkSurvivors(res.Header, toks, before, "response")
+		zzcheckSurvivors(res.Header, toks, before, "response")
 		vf.Reach("response")
 	}
 	vf.Reach("done")
 }
 
-func splitList(lines []string) []string {
+func zzsplitList(lines []string) []string {
 	var out []string
 	for _, l := range lines {
 		for _, e := range strings.Split(l, ",") {
@@ -195,7 +195,7 @@ func splitList(lines []string) []string {
 func VerifC14Via() {
 	outer, _ := NewStack("martian")
 	// learn this instance's Via entry from a first request
-	r0, rm0 := newReq()
+	r0, rm0 := zznewReq()
 	vf.Assert(outer.ModifyRequest(r0) == nil, "via:first-request")
 	rm0()
 	self := r0.Header.Get("Via")
@@ -233,7 +233,7 @@ func VerifC14Via() {
 		}
 		lines = append(lines, strings.Join(es, ", "))
 	}
-	req, remove := newReq()
+	req, remove := zznewReq()
 	defer remove()
 	if nl > 0 {
 		req.Header["Via"] = lines
@@ -251,8 +251,8 @@ func VerifC14Via() {
 	} else {
 		vf.Assert(err == nil, "via:no-loop-no-error")
 		vf.Assert(!ctx.SkippingRoundTrip(), "via:no-loop-forwarded")
-		got := splitList(req.Header["Via"])
-		want := append(splitList(lines), self)
+		got := zzsplitList(req.Header["Via"])
+		want := append(zzsplitList(lines), self)
 		vf.Assert(len(got) == len(want), "via:exactly-one-entry-appended")
 		if len(got) == len(want) {
 			for i := range got {
@@ -268,7 +268,7 @@ func VerifC14Via() {
 // VerifC14Forwarded: X-Forwarded-* with 0..2 pre-existing lines.
 func VerifC14Forwarded() {
 	outer, _ := NewStack("martian")
-	req, remove := newReq()
+	req, remove := zznewReq()
 	defer remove()
 	addrs := []string{"10.0.0.1:5000", "10.0.0.1", "[::1]:80"}
 	hosts := []string{"10.0.0.1", "10.0.0.1", "::1"}
@@ -290,8 +290,8 @@ func VerifC14Forwarded() {
 		}
 	}
 	vf.Assert(outer.ModifyRequest(req) == nil, "forwarded:no-error")
-	got := splitList(req.Header["X-Forwarded-For"])
-	want := append(splitList(xff), hosts[k])
+	got := zzsplitList(req.Header["X-Forwarded-For"])
+	want := append(zzsplitList(xff), hosts[k])
 	vf.Assert(len(got) == len(want), "forwarded:for-appended-once")
 	if len(got) == len(want) {
 		for i := range got {
@@ -312,7 +312,7 @@ func VerifC14Forwarded() {
 // Transfer-Encoding lists, through the whole stack.
 func VerifC14Framing() {
 	outer, _ := NewStack("martian")
-	req, remove := newReq()
+	req, remove := zznewReq()
 	defer remove()
 	ncl := vf.Choice("content-length-lines", 3)
 	var cls []string
